@@ -7,6 +7,13 @@ import (
 	"golang.org/x/tools/go/ssa"
 )
 
+// mapAccess: goroutine g (sequence number of vRunSpawned) touched shared map object obj without holding any lock.
+type mapAccess struct {
+	g, obj int
+	write  bool
+	where  string
+}
+
 type Spawn struct {
 	Fn   Value
 	Args []Value
@@ -25,11 +32,12 @@ type State struct {
 	inputs                  []InputDecl
 	obs                     []Observation
 	obsBad                  bool
-	sends                   int     // channel sends performed on this path
-	distinctRand            bool    // vDistinctRandom: 4-byte random draws never repeat along this path
-	randVals                []*Term // earlier 4-byte draws (as 32-bit terms)
-	parked                  bool    // this flow blocked forever on an empty channel (only inside vRunSpawned)
-	locks                   int     // mutexes currently held (Lock/RLock minus Unlock/RUnlock)
+	sends                   int         // channel sends performed on this path
+	distinctRand            bool        // vDistinctRandom: 4-byte random draws never repeat along this path
+	randVals                []*Term     // earlier 4-byte draws (as 32-bit terms)
+	unlockedMapAccess       []mapAccess // map reads/writes made by goroutines run by vRunSpawned while holding no lock
+	parked                  bool        // this flow blocked forever on an empty channel (only inside vRunSpawned)
+	locks                   int         // mutexes currently held (Lock/RLock minus Unlock/RUnlock)
 	lastNowSec, lastNowNsec *Term
 	tag                     string // deliberate case splits (vChoice, vBytesEach, concretize): states with different tags never merge
 }
@@ -59,6 +67,7 @@ func (s *State) fork() *State {
 	n.sends = s.sends
 	n.locks = s.locks
 	n.parked = s.parked
+	n.unlockedMapAccess = append([]mapAccess(nil), s.unlockedMapAccess...)
 	n.distinctRand = s.distinctRand
 	n.randVals = append([]*Term(nil), s.randVals...)
 	n.lastNowSec, n.lastNowNsec = s.lastNowSec, s.lastNowNsec
@@ -232,7 +241,7 @@ func (e *Exec) store(st *State, p Ptr, v Value) {
 
 // tryMerge merges b into a (returning a new state) or reports failure.
 func (e *Exec) tryMergeStates(a, b *State) (m *State, cond *Term, ok bool) {
-	if a.noMerge || b.noMerge || e.opts.NoMerge || a.tag != b.tag || a.sends != b.sends || a.locks != b.locks || len(a.randVals) != len(b.randVals) {
+	if a.noMerge || b.noMerge || e.opts.NoMerge || a.tag != b.tag || a.sends != b.sends || a.locks != b.locks || len(a.randVals) != len(b.randVals) || len(a.unlockedMapAccess) != len(b.unlockedMapAccess) {
 		return nil, nil, false
 	}
 	if (a.panicVal != nil) != (b.panicVal != nil) || a.pending != nil || b.pending != nil {
@@ -265,7 +274,7 @@ func (e *Exec) tryMergeStates(a, b *State) (m *State, cond *Term, ok bool) {
 			panic(r)
 		}
 	}()
-	n := &State{heap: make(map[int]Value, len(a.heap)), counts: map[string]int{}, tag: a.tag, sends: a.sends, locks: a.locks, distinctRand: a.distinctRand}
+	n := &State{heap: make(map[int]Value, len(a.heap)), counts: map[string]int{}, tag: a.tag, sends: a.sends, locks: a.locks, distinctRand: a.distinctRand, unlockedMapAccess: append([]mapAccess(nil), a.unlockedMapAccess...)}
 	for id, va := range a.heap {
 		if vb, ok := b.heap[id]; ok {
 			if sameValue(va, vb) {
